@@ -9,7 +9,7 @@ Definition rdone (s : st) : bool := match rpcf s with RDone _ => true | _ => fal
 Record Prog (s : st) : Prop := {
   (* the promise reaches the resolver: at the latest when the creator leaves charge() *)
   e1 : match cpcf s with
-       | CClaim => True
+       | CClaim | CGate1 | CGate2 => True
        | CDtor | CSet | CSub _ _ | CClr => is_late (mode s) = true \/ pavail s = true
        | _ => pavail s = true \/ rdone s = true
        end;
@@ -118,6 +118,9 @@ Proof.
     + eapply keeps_trans; [|apply keeps_mf]. eapply keeps_trans; [|apply keeps_release].
       unfold keeps, nw, rdone. simp_st. tauto.
   - eapply keeps_trans; [|apply keeps_mf]. frames. unfold keeps, nw, rdone. simp_st. rew_hyps. simp_st. rew_hyps. rewrite ?RP. repeat split; auto; discriminate.
+  - unfold keeps, nw, rdone; simp_st; rewrite RP; repeat split; auto; discriminate.
+  - unfold keeps, nw, rdone; simp_st; rewrite RP; repeat split; auto; discriminate.
+  - frames. unfold keeps, nw, rdone. simp_st. rew_hyps. rewrite ?RP. repeat split; auto; discriminate.
 Qed.
 
 Lemma keeps_ustep s j : keeps s (fst (ustep s j)).
@@ -157,12 +160,12 @@ Qed.
 Lemma prog_cstep s : Prog s -> Prog (fst (cstep s)).
 Proof.
   intros [E1 E2]. unfold cstep. destruct (cpcf s) eqn:C; cbn [fst].
-  - constructor; unfold nw, rdone; simp_st; auto.
+  - destruct (mode s) eqn:M; constructor; unfold nw, rdone; simp_st; auto.
   - destruct (mode s) eqn:M; try (constructor; unfold nw, rdone; simp_st; rewrite ?M; auto; fail).
-    frames. destruct (slot d).
-    + constructor; unfold nw, rdone; simp_st; rew_hyps; auto.
-    + constructor; unfold nw, rdone, next_give; simp_st; rew_hyps; destruct (existsb is_wait0 (users s)) eqn:X; cbn; auto;
-        destruct E1 as [Q|Q]; try discriminate; auto.
+    all: frames; destruct (slot d);
+      [constructor; unfold nw, rdone; simp_st; rew_hyps; auto
+      |constructor; unfold nw, rdone, next_give; simp_st; rew_hyps; destruct (existsb is_wait0 (users s)) eqn:X; cbn; auto;
+        destruct E1 as [Q|Q]; try discriminate; auto].
   - frames. constructor; unfold nw, rdone; simp_st; rew_hyps; auto.
   - frames. destruct (slot d) as [l|].
     + destruct (onode_eqb (head l) exp).
@@ -180,6 +183,8 @@ Proof.
     + destruct k as [|[|k]]; auto.
     + destruct k as [|[|k]]; auto.
   - constructor; rewrite C; auto.
+  - constructor; unfold nw, rdone; simp_st; auto.
+  - constructor; unfold nw, rdone; simp_st; auto.
 Qed.
 
 Theorem prog_step s i : Prog s -> enabled s i = true -> Prog (fst (tstep s i)).
